@@ -426,7 +426,12 @@ def parse_stmt(t):
         return ('switch', op, arms)
     if t.startswith('drop('):
         m = re.search(r'-> \[return: (bb\d+)', t)
-        return ('goto', m.group(1))
+        e = match_close(t, len('drop'))
+        try:
+            pl, rest = parse_place(t[len('drop('):e])
+        except Exception:
+            pl = None
+        return ('drop', pl, m.group(1))
     if t.startswith('assert('):
         e = match_close(t, len('assert'))
         args = split_top(t[len('assert('):e])
